@@ -57,7 +57,7 @@ prop("C05",
 prop("C06", bounds={"all": "composition harness on a 2-compartment profile; 11 (quick) / 16 (thorough) day regimes; leaf harnesses for biomass, irrigation, pre-irrigation, transpiration"},
      outside=["conversion of the output arrays to DataFrames (outputs_when_model_is_finished, pandas)", "sum over a season of the daily column is proved as the inductive invariant irr_cum' = irr_cum + IrrDay"],
      budget_s={"quick": 900, "thorough": 7200})
-prop("C07", bounds={"all": "1-3 seasons, symbolic integer dates (start, length, planting and harvest dates, current step), off-season flag and harvest flag enumerated"},
+prop("C07", bounds={"all": "1-3 seasons (1-5 in the thorough tier), symbolic integer dates (start, length, planting and harvest dates, current step), off-season flag and harvest flag enumerated"},
      outside=["derivation of planting/harvest dates and the initial season counter from the date strings (read_model_parameters, compute_crop_calendar: pandas/str code) is assumed as the well-formedness precondition",
               "thermal-time maturity (gdd_cum >= Maturity) in the composition harness"],
      budget_s={"quick": 600, "thorough": 3600})
@@ -66,7 +66,7 @@ prop("C08", bounds={"all": "Maize (and Wheat in thorough), irrigation methods 0,
      outside=["thermal-time crops", "state held in arrays other than th/thini is not havocked (aer_days_comp is reset by the code under test and compared concretely)"],
      budget_s={"quick": 600, "thorough": 3600})
 prop("C09", bounds={"quick": "<= 3 successive run_model calls, each num_steps <= 3 (symbolic), termination after T <= 5 transitions (symbolic), optional clock jump",
-                    "thorough": "<= 3 calls, num_steps <= 5, T <= 8"},
+                    "thorough": "<= 4 calls, num_steps <= 8, T <= 12"},
      outside=["equality of the pandas tables is implied through equality of the arguments reaching the output conversion", "process_outputs=True"],
      budget_s={"quick": 300, "thorough": 3600})
 prop("C12", bounds=WATER_BOUNDS, cfg_limit={"quick": 5},
